@@ -32,7 +32,7 @@ LEVEL_TEXT = ("input-space exploration: every ordered pair of a size-bounded ter
               "two terms, so exhaustive small-scope enumeration is the matching technique")
 RULE = ("all ordered pairs of TERM(k1)xTERM(k2) shapes with all joint sharing patterns x all pairs of applicable "
         "routes (lit, dq, univ, func, chars, copy, sfxK); string mismatch family (prefix length 0..9 x 3 prefix kinds x "
-        "12 differing char pairs x suffix x tails x 7x7 routes); atom and number alphabets (all ordered pairs x "
+        "12 differing char pairs x suffix x tails x 8x8 routes); atom and number alphabets (all ordered pairs x "
         "encodings); 40-term spine matrices (all triples). Non-trivial: the two sides differ in route, or mix "
         "string and list encodings, or are numbers of different classes/encodings.")
 ASSUMPTIONS = ["stdorder.py encodes the order stated in the property (Var < Float < Int/Rat < Atom < Compound)",
@@ -51,7 +51,7 @@ def bound_text(tier):
     if tier == "quick":
         return ("pairs TERM(2)xTERM(2) all routes + TERM(2)xTERM(3) both orders routes {lit,univ,chars}; pstr family "
                 "tails {[],X}; atoms; nums; 6 spine variants")
-    return ("pairs TERM(3)xTERM(3) routes {lit,dq,univ,chars,sfx1} + TERM(2)xTERM(2) all 9 routes; pstr family tails "
+    return ("pairs TERM(3)xTERM(3) routes {lit,univ,chars} + TERM(2)xTERM(2) all 9 routes (lit,dq,univ,func,chars,copy,fa,asrt,sfx1); pstr family tails "
             "{[],X,1,[1]}; atoms; nums; 12 spine variants")
 
 
@@ -61,13 +61,14 @@ def bound_text(tier):
 R_FULL = ["lit", "dq", "univ", "func", "chars", "copy", "fa", "asrt", "sfx1"]
 R_Q22 = ["lit", "dq", "univ", "chars", "copy", "sfx1"]
 R_Q23 = ["lit", "univ", "chars"]
-R_T33 = ["lit", "dq", "univ", "chars", "sfx1"]
-R_PSTR = ["dq", "univ", "chars", "sfx1", "sfx3", "sfx8", "copy"]
+R_T33 = ["lit", "univ", "chars"]
+R_PSTR = ["dq", "univ", "chars", "seg", "sfx1", "sfx3", "sfx8", "copy"]
 
+UNALIGNED = ("seg", "sfx1", "sfx3")    # routes that make compare_pstr_slices start inside a cell
 MISMATCH = [("a", "b"), ("a", "é"), ("é", "è"), ("é", "z"), ("€", "₭"), ("😀", "😁")]
 
-ATOM_FAM = ["", "a", "ab", "b", "B", "é", "é", "€", "\U0010FFFF", "aé", "z", "[]", "{}", "a\x00", "a\x00b",
-            "�", "\U00010000", "abcdef", "abcdefg", "abcdefgh", "abcdeé", "abcdé"]
+ATOM_FAM = ["", "a", "ab", "b", "B", "\u00e9", "e\u0301", "\u20ac", "\U0010FFFF", "a\u00e9", "z", "[]", "{}", "a\x00",
+            "a\x00b", "\ufffd", "\U00010000", "abcdef", "abcdefg", "abcdefgh", "abcde\u00e9", "abcd\u00e9"]
 
 FIX_MAX = 2 ** 55 - 1
 FIX_MIN = -(2 ** 55)
@@ -368,14 +369,13 @@ def sig_of(case, vk, a, b):
         sa, _ = T.char_run(a)
         sb, _ = T.char_run(b)
         if sa == sb:
-            rel, short = "equal", "-"
-        elif sb.startswith(sa):
-            rel, short = "prefix", case["ra"]
-        elif sa.startswith(sb):
-            rel, short = "prefix", case["rb"]
+            rel = "equal"
+        elif sb.startswith(sa) or sa.startswith(sb):
+            rel = "prefix"
         else:
-            rel, short = "mismatch", "-"
-        cl = "%s/%s rel=%s short=%s" % (T.kind(a), T.kind(b), rel, short)
+            rel = "mismatch"
+        un = 1 if (case["ra"] in UNALIGNED or case["rb"] in UNALIGNED) else 0
+        cl = "%s/%s rel=%s unaligned=%d" % (T.kind(a), T.kind(b), rel, un)
     else:
         cl = "%s/%s" % (T.kind(a), T.kind(b))
     return "%s %s via %s/%s: %s" % (fam, cl, case.get("ra", "-"), case.get("rb", "-"), vk)
